@@ -1,12 +1,14 @@
 #!/bin/bash
-# usage: tools/try_mutant.sh <patch.diff> <ID> [extra run_check args]  -- applies a patch to /repo, runs the quick check, reverts.
+# usage: tools/try_mutant.sh <patch.diff> <ID> [extra run_check args]
+# Runs the check of <ID> against a scratch worktree of /repo's HEAD with the patch applied (VERIF_REPO), so /repo is never touched.
 set -u
-patch=$1; id=$2; shift 2
-cd /repo || exit 2
-if ! git diff --quiet; then echo "/repo has uncommitted changes; refusing"; exit 2; fi
-git apply "$patch" || { echo "patch does not apply"; exit 2; }
+patch=$(readlink -f "$1"); id=$2; shift 2
+wt=/tmp/wt/_mut_$$
+git -C /repo worktree add --detach "$wt" HEAD -q || exit 2
+cleanup() { git -C /repo worktree remove --force "$wt" 2>/dev/null; }
+trap cleanup EXIT
+git -C "$wt" apply "$patch" || { echo "patch does not apply"; exit 2; }
 cd /verif
-/venv/bin/python run_check.py "$id" "$@" 2>&1 | grep -E "^(VIOLATION|violation:|HARNESS|KNOWN|C[0-9]+ tier)" | cut -c1-400
+VERIF_REPO="$wt" /venv/bin/python run_check.py "$id" "$@" 2>&1 | grep -E "^(VIOLATION|violation:|HARNESS|KNOWN|C[0-9]+ tier)" | cut -c1-400
 rc=${PIPESTATUS[0]}
-git -C /repo checkout -- .
 echo "exit=$rc"
